@@ -571,13 +571,13 @@ func runMergeProperty(judge func(*World, MergeCase, []mergeObsFull) *Violation) 
 func TestC11(t *testing.T) {
 	Ev.Rule = "case = population written by generated histories (several engine configurations via restarts: compression, FPR, row-group limits, partition function, minmax key sets; external-writer files; earlier merges) + 1-3 Merge calls under generated merge limits + up to 8 queries run before and after every Merge. Oracle: row multiset (bytes by unique id) unchanged; partition kept; new block ranges cover each row's indexed values (math/big floor/ceil); no-prefilter answers identical; prefilter answers a superset containing only rows matching bloom+regex (independent oracle). Non-trivial: the Merge combined >=2 blocks AND >=1 of {key-set mismatch inside a partition, limit hit mid-bucket, same-file blocks combined, mixed compression, copied+merged blocks in one output}; distinct by hash(layout before, layout after, merge config, flags)."
 	Ev.Assumptions = []string{"stores are healthy (fault cases belong to C13)", "tokenizer fixed within a history"}
-	runChecks(t, "merge", 200, 6000, genMergeCase(), runMergeProperty(judgeC11))
+	runChecks(t, "merge", 200, 24000, genMergeCase(), runMergeProperty(judgeC11))
 }
 
 func TestC12(t *testing.T) {
 	Ev.Rule = "same generated populations and merges as C11. Oracle (provenance from unique row ids): every output block with rows from >=2 source blocks has rows <= MaxRowGroupRows, sum(len+4) <= MaxRowGroupBytes, one partition, equal source minmax key sets; files removed by one Merge <= MaxFilesToMergePerOperation; for every output file merged from >=2 files the sum of the source files' on-disk block sizes <= MaxFileSize. Non-trivial: the merge removed >=1 file and some limit was binding (same-bucket blocks left in different output blocks, a block exactly at a limit, file-count limit reached, or a same-bucket file left unmerged); distinct by hash(layouts, merge config)."
 	Ev.Assumptions = []string{"file size is measured as the sum of on-disk block sizes (<= real file size), so the bound holds under either reading of 'total bytes'"}
-	runChecks(t, "merge", 200, 6000, genMergeCase(), runMergeProperty(judgeC12))
+	runChecks(t, "merge", 200, 24000, genMergeCase(), runMergeProperty(judgeC12))
 }
 
 var _ = sort.Ints
